@@ -58,3 +58,26 @@ def check_swap_transpose(repo, chk):
     chk.oblige("S-swap", "5 exchanges of (B1, B2, B3): transpose order follows the momentum exchange", not bad)
     for b in bad[:2]:
         chk.violation("S-swap", tp.key, "axes", b + ": the exchanged amplitude is added with the helicities of the wrong particles, so the density of spinning identical particles is neither symmetric nor rotation invariant", file=CORE, line=tp.lineno)
+    # two identical groups (B1, B2) and (C1, C2): every combination of group permutations but the identity is an
+    # exchange term - an exchange within the first group only is one of them
+    outs2 = ["B1", "B2", "C1", "C2", "D"]
+    ids2 = [["B1", "B2"], ["C1", "C2"]]
+    p42 = {k: sp.Symbol("p_" + k) for k in outs2 + ["A"]}
+    try:
+        ev2 = Translator(repo, hooks={"allow_attr_store": True}, max_depth=3).call_fn(gen, [dict(p42), [list(x) for x in ids2]])
+        ev2 = list(ev2) if not isinstance(ev2, list) else ev2
+    except Unmodelled as e:
+        raise AnalysisError("identical_particles_swap_p cannot be interpreted for two identical groups: %s" % e)
+    moved = []
+    for key, ev in ev2:
+        m_ = tuple(sorted((name, str(mom)) for name, mom in ev.items() if mom != p42[name]))
+        moved.append(m_)
+    want2 = {
+        (("B1", "p_B2"), ("B2", "p_B1")),
+        (("C1", "p_C2"), ("C2", "p_C1")),
+        (("B1", "p_B2"), ("B2", "p_B1"), ("C1", "p_C2"), ("C2", "p_C1")),
+    }
+    ok2 = len(moved) == 3 and set(moved) == want2
+    chk.oblige("S-swap", "two identical groups (B1, B2), (C1, C2): the three non-trivial exchanges (first group only, second only, both) are generated once each, the identity is not", ok2)
+    if not ok2:
+        chk.violation("S-swap", gen.key, "two-groups", "identical_particles_swap_p with the groups (B1, B2) and (C1, C2) yields the exchanges %s, expected exactly %s: a missing exchange term leaves the density unsymmetrised under that exchange, an extra identity term double counts" % (sorted(moved), sorted(want2)), file=CAL, line=gen.lineno)
